@@ -69,7 +69,7 @@ P = {
 }
 
 # properties whose check is built and claimed
-CLAIMED = ["C01", "C02", "C06", "C07", "C08", "C09", "C10", "C11", "C13", "C14", "C15", "C16", "C17", "C18", "C19", "C20"]
+CLAIMED = ["C%02d" % i for i in range(1, 21)]
 
 def main():
     checks = []
